@@ -179,6 +179,7 @@ pub fn run_c13(tier: &str) -> i32 {
             }
         });
     });
+    crate::eproj::c13_dependency_pairs(&rep);
     if rep.get("model_pairs_differing") == 0 || rep.get("model_pairs_equal") == 0 || rep.get("pairs_ending_in_text") == 0 {
         rep.machinery("vacuous: the enumeration did not produce both kinds of pairs".into());
     }
